@@ -30,7 +30,6 @@ NOT_APPLICABLE = {
  "C32": "Page operations vs a reference model over operation histories: content-level. The page-number range clause of selections is decided under C31; rotation/box/insert arithmetic on page dictionaries is value-level.",
  "C33": "Page-sequence preservation of split/merge: content-level arithmetic on page lists. The span arithmetic of pkg/api/split.go was read in round 3 (from = i*span+1, thru = min((i+1)*span, pageCount), final partial span) and is correct; nothing beyond arithmetic remains to check structurally.",
  "C34": "Booklet/n-up placement is combinatorial arithmetic over page counts and configurations (permutations of page numbers); no table or sibling pair whose agreement is a necessary condition was found.",
- "C35": "Key/value-store behaviour over edit histories, incl. Unicode values and attachment bytes. The text-encoding clause is covered by C13's decoder table; set semantics of keywords/properties and attachment byte identity are value-level.",
  "C37": "Form export/fill round trip over field values (per field type value formatting and appearance generation): value-level.",
  "C39": "Name-tree ordering/limits invariants are maintained by value comparisons on keys; the insertion, split and limit-update code (model/nameTree.go) was read in round 3 without finding a table or pairing clause; a shape analysis for sorted tree nodes is out of reach with the tools present.",
 }
